@@ -373,6 +373,8 @@ impl<'a> Gen<'a> {
                 ("reviewer", "\u{17b}aneta"),
                 ("n\u{663}", "\u{663}"),
                 ("team_2", "core"),
+                ("link", "https://example.com/a//b#frag"),
+                ("ticket", "#4711 // urgent"),
             ]);
             b.attrs.push((k.into(), v.into()));
         }
@@ -485,6 +487,7 @@ impl<'a> Gen<'a> {
             2 => format!("{tok} caf\u{e9} \u{2603} \u{1f600} {{\"json\": true}}"),
             3 => format!("  {tok} padded with blanks  "),
             4 => format!("{tok}\tTAB and / slash & ampersand %20"),
+            5 if self.rng.chance(1, 2) => format!("{tok} see issue #12, https://example.com/a//b#frag ; x < y > z"),
             _ => format!("{tok} items must be fruit"),
         }
     }
@@ -739,7 +742,7 @@ impl<'a> Gen<'a> {
                 self.world.files[i].diff = FileDiff::Added;
             } else if roll < 8 && allow_insert {
                 if let Some(l) = self.pick_insert_line(i) {
-                    self.world.files[i].diff = FileDiff::Insert { line: l, renamed_from: None, edit: LineEdit::Inserted };
+                    self.world.files[i].diff = FileDiff::Insert { line: l, renamed_from: None, edit: LineEdit::Inserted, more: vec![] };
                     self.vary_edit(i);
                 }
             }
@@ -753,7 +756,7 @@ impl<'a> Gen<'a> {
         if !self.rng.chance(1, 3) {
             return;
         }
-        let FileDiff::Insert { line, edit, .. } = self.world.files[i].diff.clone() else {
+        let FileDiff::Insert { line, edit, more, .. } = self.world.files[i].diff.clone() else {
             return;
         };
         let path = self.world.files[i].path.clone();
@@ -772,7 +775,7 @@ impl<'a> Gen<'a> {
             })
             || self.world.files.iter().any(|g| matches!(&g.diff, FileDiff::Insert { renamed_from: Some(o), .. } if *o == old));
         if !collides {
-            self.world.files[i].diff = FileDiff::Insert { line, renamed_from: Some(old), edit };
+            self.world.files[i].diff = FileDiff::Insert { line, renamed_from: Some(old), edit, more };
         }
     }
 
@@ -784,27 +787,65 @@ impl<'a> Gen<'a> {
         let FileDiff::Insert { line, renamed_from, .. } = self.world.files[i].diff.clone() else {
             return;
         };
-        let old = format!("gone{}", self.rng.below(1000));
         let r = render_file(&self.world.files[i], false);
-        if r.lines.iter().any(|l| *l == old) {
-            return;
+        let (line, edit) = self.random_edit(&r, line, &[]);
+        let mut more = Vec::new();
+        // a second change further down: another hunk (or, with context lines, the same one)
+        if self.rng.chance(2, 5) {
+            let cands: Vec<usize> = self
+                .insert_candidates(i)
+                .into_iter()
+                .filter(|&l| l > line + 2 || l + 3 < line)
+                .collect();
+            if !cands.is_empty() {
+                let l2 = *self.rng.pick(&cands);
+                let (l2, e2) = self.random_edit(&r, l2, &[&edit]);
+                // a removed line is only drawn where old and new line numbers still agree
+                let (first, second) = if l2 > line { (&edit, &e2) } else { (&e2, &edit) };
+                let shifted_removal =
+                    matches!(second, LineEdit::Removed { .. }) && !matches!(first, LineEdit::Replaced { .. });
+                if (l2 > line + 1 || l2 + 2 < line) && !shifted_removal {
+                    more.push((l2, e2));
+                }
+            }
+        }
+        self.world.files[i].diff = FileDiff::Insert { line, renamed_from, edit, more };
+    }
+
+    /// What happened at (or right in front of) rendered line `line`; may move a removal behind the
+    /// last content line. `taken` are edits whose old text must not be reused.
+    fn random_edit(&mut self, r: &RenderedFile, line: usize, taken: &[&LineEdit]) -> (usize, LineEdit) {
+        let mut old = format!("gone{}", self.rng.below(1000));
+        let used = |o: &str| {
+            r.lines.iter().any(|l| l == o)
+                || taken.iter().any(|t| matches!(t, LineEdit::Replaced { old } | LineEdit::Removed { old } if old == o))
+        };
+        while used(&old) {
+            old.push('x');
         }
         match self.rng.below(10) {
-            0..=2 => {
-                self.world.files[i].diff = FileDiff::Insert { line, renamed_from, edit: LineEdit::Replaced { old } };
-            }
+            0..=2 => (line, LineEdit::Replaced { old }),
             3..=5 => {
                 // behind the last content line: the line that follows is the block's end tag
                 let next_is_end_tag = r.blocks.iter().any(|b| b.end_line == line + 1);
                 let line = if next_is_end_tag && self.rng.chance(1, 2) { line + 1 } else { line };
-                self.world.files[i].diff = FileDiff::Insert { line, renamed_from, edit: LineEdit::Removed { old } };
+                (line, LineEdit::Removed { old })
             }
-            _ => {}
+            _ => (line, LineEdit::Inserted),
         }
     }
 
     /// A rendered line number that may serve as a pure insertion (see model::invalid_reason).
     pub fn pick_insert_line(&mut self, file_idx: usize) -> Option<usize> {
+        let candidates = self.insert_candidates(file_idx);
+        if candidates.is_empty() {
+            None
+        } else {
+            Some(*self.rng.pick(&candidates))
+        }
+    }
+
+    pub fn insert_candidates(&self, file_idx: usize) -> Vec<usize> {
         let r = render_file(&self.world.files[file_idx], false);
         let mut candidates = Vec::new();
         for l in 1..=r.lines.len() {
@@ -826,11 +867,7 @@ impl<'a> Gen<'a> {
                 candidates.push(l);
             }
         }
-        if candidates.is_empty() {
-            None
-        } else {
-            Some(*self.rng.pick(&candidates))
-        }
+        candidates
     }
 
     pub fn gen_plan_seeds(&mut self) {
